@@ -548,8 +548,24 @@ class FuncEffects:
         self._reaching()
         out = []
 
+        def is_class_object(e):
+            """type(self) / self.__class__ / the enclosing class's own name (a local alias of one of these counts)"""
+            if isinstance(e, ast.Call) and isinstance(e.func, ast.Name) and e.func.id == "type" and len(e.args) == 1 and isinstance(e.args[0], ast.Name) and e.args[0].id == self.selfname:
+                return True
+            if isinstance(e, ast.Attribute) and e.attr == "__class__" and isinstance(e.value, ast.Name) and e.value.id == self.selfname:
+                return True
+            if isinstance(e, ast.Name) and self.fi.cls is not None and e.id == self.fi.cls.name and e.id not in self.local_names:
+                return True
+            if isinstance(e, ast.Name) and e.id in self.local_names and e.id != self.selfname:
+                vals = [v for t, v, _ in A.assignments(self.fn, e.id) if not isinstance(v, ast.AugAssign)]
+                return bool(vals) and all(is_class_object(v) for v in vals)
+            return False
+
         def add(node, how, target_expr, via=None):
             pv = self.prov(target_expr, node)
+            if how.startswith("attr-") and is_class_object(target_expr) and not self.is_init:
+                s0 = Site(node, how, A.unparse(target_expr), pv, via)
+                pv = {"class:" + _attr_written(s0)}
             out.append(Site(node, how, A.unparse(target_expr), pv, via))
 
         for n in A.body_walk(self.fn, into_nested=True):
